@@ -22,7 +22,7 @@ from .. import gen_C01 as G
 from .C01 import ASSUMPTIONS, TRUSTED
 
 PRE = """From QV.lib Require Import Prelude.
-From QV.model Require Import C01_Model.
+From QV.model Require Import C01_Model C14_Hybrid_Model.
 From QV.proof Require Import C01_Proofs_Store.
 From Coq Require Import String.
 Local Open Scope string_scope.
@@ -35,6 +35,15 @@ Definition chk14 (sn st usn ust : list string) (v : value) (obs : node) (ld : va
    (* save-time types only: what is left is exactly norm of the save-pruned graph (C14_skip_types_save) *)
    match sn, usn, ust with [], [], [] => value_eqb (norm (prune_save [] st v)) expect | _, _, _ => true end;
    wf_node (save_file sn st v)].
+(* nn.Module + AutoSerialize hybrid as the ROOT object: model/C14_Hybrid_Model.v (load_file_hyb = load_file followed by
+   the final hasattr / delattr loop acting on torch's registries); theorems C14_hybrid_* *)
+Definition chk14h (sn st usn ust : list string) (v : value) (obs : node) (ld : value) :=
+  let d := hyb_delattr (usn ++ sn) in
+  let expect := d (prune_load (usn ++ sn) (ust ++ filter (fun t => negb (mem t ust)) st) (norm (prune_save sn st v))) in
+  [wf_obj v; attr_nested v; node_eqb (save_file sn st v) obs; res_eqb (load_file_hyb usn ust obs) (RVal ld);
+   res_eqb (load_file_hyb usn ust (save_file sn st v)) (RVal expect); value_eqb expect ld;
+   match st, ust with [], [] => value_eqb (d (prune_load (usn ++ sn) [] (norm v))) expect | _, _ => true end;
+   true; wf_node (save_file sn st v)].
 """
 
 NAMES = ["a", "b", "x", "data", "_dset", "dset", "w0", "meta"]
@@ -45,6 +54,35 @@ ABC_TYPES = ["numbers.Number", "numbers.Integral", "numbers.Real", "numbers.Comp
              "collections.abc.MutableMapping", "collections.abc.Set", "collections.abc.MutableSet"]
 TYPES = ["numpy.ndarray", "builtins.int", "builtins.float", "builtins.str", "builtins.list", "builtins.dict",
          "torch.Tensor", "harness.c01_classes.NodeB", "builtins.bool", "builtins.tuple", "builtins.set"]
+
+
+HYB_NAMES = NAMES + ["linear", "head", "scale", "running"]
+HYB_CLASSES = ["HybridNet", "HybridNetB"]
+
+
+def gen_hybrid(r, depth, width, child=False):
+    """nn.Module + AutoSerialize hybrid: entries (name, role, value); sub-modules (plain torch modules or hybrids, saved
+    whole), parameters, buffers, plain attributes (any value kind; below a ROOT hybrid also attribute-nested pure
+    AutoSerialize objects, which _recursive_save / _recursive_load descend into).  Names come from the same pool as
+    everywhere else, so a skipped name can be a parameter here and a plain attribute one level down."""
+    ent = []
+    for nm in r.sample(HYB_NAMES, r.randint(3, min(len(HYB_NAMES), width + 2))):
+        role = r.choice(["module", "param", "buffer", "plain", "plain"])
+        sd = r.randrange(10 ** 6)
+        if role == "module":
+            v = gen_hybrid(r, 0, 3, True) if (depth > 0 and r.random() < 0.3) else ["module", r.choice(["linear", "seq", "tiny", "tiny-nobuf"]), sd]
+        elif role == "param":
+            v = ["tensor", r.choice(["float32", "float64"]), r.choice([[2], [3], [2, 2], []]), r.random() < 0.8, True, sd]
+        elif role == "buffer":
+            v = ["tensor", r.choice(["float32", "int64", "bool"]), r.choice([[2], [3], [1, 2], []]), False, False, sd]
+        elif not child and depth > 0 and r.random() < 0.35:
+            v = gen_skip_graph(r, depth - 1, width)
+        else:
+            v = G.gen_value(r, 1, False, 3, allow_obj=False)
+            if v[0] == "obj":
+                v = ["int", 1]
+        ent.append([nm, role, v])
+    return ["hyb", r.choice(HYB_CLASSES), ent]
 
 
 def gen_skip_graph(r, depth, width, cont_obj=False):
@@ -58,6 +96,8 @@ def gen_skip_graph(r, depth, width, cont_obj=False):
     for nm in names:
         if depth > 0 and r.random() < 0.4:
             v = gen_skip_graph(r, depth - 1, width, cont_obj)
+        elif r.random() < 0.06:
+            v = gen_hybrid(r, 0, 3, child=True)       # a hybrid below the root: _serialize_value saves it whole (module kind)
         elif cont_obj and r.random() < 0.3:
             v = [r.choice(["list", "tuple"]), [gen_skip_graph(r, 0, 3), ["str", "s"]]] if r.random() < 0.6 else \
                 ["dict", [["k", gen_skip_graph(r, 0, 3)]]]
@@ -70,6 +110,10 @@ def gen_skip_graph(r, depth, width, cont_obj=False):
 
 
 def names_in(spec, acc):
+    if spec[0] == "hyb":
+        for k, _, v in spec[2]:
+            acc.add(k)
+            names_in(v, acc)
     if spec[0] == "obj":
         for k, v in spec[2]:
             acc.add(k)
@@ -83,17 +127,24 @@ def gen_cases(ctx: Ctx):
     n = ctx.budget(44, 900)
     for j in range(n):
         cont_obj = j % 11 == 10
-        spec = gen_skip_graph(r, r.choice([1, 2, 2, 3]), r.choice([3, 4, 5]), cont_obj)
+        hyb_root = (not cont_obj) and j % 4 == 1
+        spec = gen_hybrid(r, r.choice([1, 2]), r.choice([3, 4, 5])) if hyb_root else \
+            gen_skip_graph(r, r.choice([1, 2, 2, 3]), r.choice([3, 4, 5]), cont_obj)
         present = sorted(names_in(spec, set()))
-        pick = lambda: r.sample(present, r.randint(0, min(3, len(present)))) + r.sample(ABSENT, r.choice([0, 0, 1, 2]))  # noqa: E731
+        # names of the root hybrid that live in its registries (parameters, buffers, sub-modules): 1-2 of them in every pick
+        reg = [nm for nm, role, v in spec[2] if role != "plain" or v[0] in ("module", "hyb") or (v[0] == "tensor" and v[4])] if hyb_root else []
+        pick = lambda: (r.sample(reg, r.randint(1, min(2, len(reg)))) if reg else []) + \
+            r.sample(present, r.randint(0, min(3, len(present)))) + r.sample(ABSENT, r.choice([0, 0, 1, 2]))  # noqa: E731
         mode = r.choice(["save", "load", "both", "both", "none-absent"])
+        if hyb_root and mode == "none-absent":
+            mode = r.choice(["save", "load", "both"])
         sn_s = pick() if mode in ("save", "both") else []
         sn_l = pick() if mode in ("load", "both") else []
         if mode == "none-absent":
             sn_s, sn_l = r.sample(ABSENT, r.randint(0, 2)), r.sample(ABSENT, r.randint(1, 3))
-        st_s = r.sample(TYPES, r.choice([1, 1, 2])) if (r.random() < 0.4 and mode != "none-absent") else []
+        st_s = r.sample(TYPES, r.choice([1, 1, 2])) if (r.random() < 0.4 and mode != "none-absent" and not hyb_root) else []
         abc = False
-        if mode != "none-absent" and j % 9 == 4:
+        if mode != "none-absent" and j % 9 == 4 and not hyb_root:
             # abstract base classes: "every attribute that is an INSTANCE of a listed type" includes virtual
             # subclasses (int is a numbers.Number, list a collections.abc.Sequence) that no MRO lists: the model
             # decides them through its virtual-subclass table abcs_of (tied to isinstance() by C01's dispatch rows)
@@ -102,11 +153,11 @@ def gen_cases(ctx: Ctx):
                 st_s = st_s + r.sample(TYPES, 1)          # an abstract base class next to a concrete type
         # load-time TYPE skipping (exact type in the code; not part of the property text: correspondence only)
         st_l = r.sample(TYPES + ["torch.nn.parameter.Parameter", "torch.nn.modules.linear.Linear", "builtins.complex"],
-                        r.choice([1, 1, 2])) if j % 7 == 3 else []
+                        r.choice([1, 1, 2])) if (j % 7 == 3 and not hyb_root) else []
         cases.append({"id": "s%04d" % j, "prop": "C14", "label": "graph", "spec": spec, "cfg": G.gen_cfg(r),
                       "skip_save_names": sn_s, "skip_save_types": st_s, "skip_load_names": sn_l, "skip_load_types": st_l,
                       "save_eq_load": (not st_s) and (not st_l) and not cont_obj and j % 2 == 0, "container_objects": cont_obj,
-                      "mode14": mode, "dispatch": False, "abc_types": abc})
+                      "mode14": mode, "dispatch": False, "abc_types": abc, "hybrid_root": hyb_root, "hybrid_registry_names": reg})
     return cases
 
 
@@ -117,7 +168,9 @@ def run(ctx: Ctx):
     ctx.hash_sources("diffractive_imaging/ptychography.py", ["Ptychography.save"])
     ctx.cov["rule"] = (
         "cases: attribute-nested object graphs (depth<=3, 8 attribute names recurring at several depths, plain classes and 15% "
-        "attrs-decorated classes with/without slots) x skip configuration (names present/absent at save time, load time or both; "
+        "attrs-decorated classes with/without slots; every 4th root is an nn.Module + AutoSerialize HYBRID with sub-modules, "
+        "parameters, buffers (registry entries) and plain attributes incl. attribute-nested plain objects, 1-2 registry names in "
+        "every skip list, names only; 6% of the other attribute values are hybrids saved whole) x skip configuration (names present/absent at save time, load time or both; "
         "0-2 types out of 11 concrete at save time; every 9th case 1-2 of 11 abstract base classes, half of them next to a concrete "
         "type; every 7th case 1-2 types at LOAD time: correspondence only) x (store, compression, "
         "str|Path, mode); every 11th graph has objects inside containers (outside the quantifier: asymmetry recorded only); "
@@ -127,6 +180,10 @@ def run(ctx: Ctx):
         "skip types are given by importable classes; the type list recorded in the file is re-imported by name on load"]
     ctx.cov["trusted_base"] += TRUSTED
     ctx.proofs_or_violation()
+    # source tie: serialize.py is translated NOW and proved equal to what the model assumes (harness/c01_tie.py):
+    # skip condition, skip-list threading, name / type filters of the loaders, recorded keys, marker chains
+    from ..c01_tie import run_tie
+    ctx.tie_ok = run_tie(ctx)
     try:
         _run(ctx)
     finally:
@@ -140,7 +197,7 @@ def _run(ctx: Ctx):
     fut = G.pool().submit(run_ptycho_case)
     results = G.run_cases(cases)
     exprs, idx = [], []
-    n_sel = n_asym = n_asym_seen = n_rec = 0
+    n_sel = n_asym = n_asym_seen = n_rec = n_hyb_child = n_hyb_child_surv = 0
     for case, res in zip(cases, results):
         if res.get("harness_exc"):
             # an exception inside one of the extra save/load runs of the skip oracle (e.g. save() raising on a
@@ -158,6 +215,16 @@ def _run(ctx: Ctx):
             ctx.dist("skip-types/abstract-base-class")
         if case["spec"][1] in G.ATTRS_CLASSES:
             ctx.dist("class/" + case["spec"][1])
+        skipped_all = set(case["skip_save_names"]) | set(case["skip_load_names"])
+        ctx.dist("root/" + ("hybrid-nn.Module+AutoSerialize" if case.get("hybrid_root") else "plain"))
+        if case.get("hybrid_root"):
+            for nm, role, v in case["spec"][2]:
+                if nm in skipped_all:
+                    where = ("save+load" if nm in case["skip_save_names"] and nm in case["skip_load_names"] else
+                             "save" if nm in case["skip_save_names"] else "load")
+                    ctx.dist("hybrid-root-skipped/%s/at-%s" % (role if nm in case["hybrid_registry_names"] or role == "plain" else role, where))
+        n_hyb_child += int(res.get("hybrid_children", 0))
+        n_hyb_child_surv += int(res.get("hybrid_child_skipped_names_surviving", 0))
         for t in case["skip_save_types"]:
             ctx.dist("skip-type/" + t)
         ctx.dist("store/" + cfg["store"])
@@ -179,7 +246,8 @@ def _run(ctx: Ctx):
                               {"kind": "case", "case": case, "diffs": res["diffs"][:8]})
         if res["v"] and res["obs"] and res["ld"] and not res.get("harness_exc"):
             from ..impl_C01 import cs, clist
-            exprs.append("chk14 %s %s %s %s %s %s %s" % (
+            exprs.append("%s %s %s %s %s %s %s %s" % (
+                "chk14h" if case.get("hybrid_root") else "chk14",
                 clist(cs(x) for x in res["sn_order"]), clist(cs(x) for x in case["skip_save_types"]),
                 clist(cs(x) for x in case["skip_load_names"]), clist(cs(x) for x in case.get("skip_load_types", [])),
                 res["v"], res["obs"], res["ld"]))
@@ -193,7 +261,17 @@ def _run(ctx: Ctx):
         "what": "objects nested in containers are pruned by save(skip=names) but not by load(skip=names) "
                 "(_deserialize_container calls _recursive_load without skip lists); outside C14's quantifier",
         "graphs_with_objects_in_containers": n_asym, "save_vs_load_results_differ_on": n_asym_seen}
-    pt = fut.result()
+    ctx.cov["observed_hybrid_children"] = {
+        "what": "an nn.Module + AutoSerialize hybrid BELOW the root is saved whole by torch.save (the nn.Module test of "
+                "_serialize_value precedes the AutoSerialize test): skip names are not applied inside it; it is a value of the "
+                "module kind, not an attribute-nested AutoSerialize level; recorded, never judged",
+        "hybrid_children_loaded": n_hyb_child, "skipped_names_surviving_inside_them": n_hyb_child_surv}
+    try:
+        pt = fut.result()
+    except Exception as e:  # noqa  (the pool was broken by a worker killed from outside and rebuilt by run_cases)
+        if type(e).__name__ not in ("BrokenProcessPool", "CancelledError"):
+            raise
+        pt = G.pool().submit(run_ptycho_case).result()
     if pt.get("harness_exc"):
         raise RuntimeError("harness failure on the Ptychography corpus case: " + pt["harness_exc"])
     ctx.count("ptycho-corpus", nontrivial=True)
@@ -268,8 +346,8 @@ def replay(ctx: Ctx, path):
     if not res["diffs"]:
         print("oracle: property holds on this case")
     if res.get("v") and res.get("obs") and res.get("ld"):
-        v = ctx.coq_eval("replay", PRE, ["chk14 %s %s %s %s %s %s %s" % (
-            clist(cs(x) for x in res["sn_order"]), clist(cs(x) for x in case["skip_save_types"]),
+        v = ctx.coq_eval("replay", PRE, ["%s %s %s %s %s %s %s %s" % (
+            "chk14h" if case.get("hybrid_root") else "chk14", clist(cs(x) for x in res["sn_order"]), clist(cs(x) for x in case["skip_save_types"]),
             clist(cs(x) for x in case["skip_load_names"]), clist(cs(x) for x in case.get("skip_load_types", [])),
             res["v"], res["obs"], res["ld"])])[0]
         print("model: wf=%s attr_nested=%s encode=%s decode=%s model-skip=%s skip-roundtrip=%s names-commute=%s types-at-save=%s "
